@@ -27,6 +27,7 @@ UNMET_A, UNMET_B, MET = '--xdverif-iso-a', 'module:xdverif_iso_no_such_mod', 'mo
 
 MODULE = '''
 GLOBAL_X = 'module-x'
+GLOBAL_ANNOTATED: int = 1
 COUNTER = [0]
 
 def helper():
@@ -115,6 +116,21 @@ def d_lazy_requires():
     head
     >>>   # xdoctest: +REQUIRES(module:xdverif_no_such_module_b)
     >>> raise RuntimeError('needs a module that is not there')
+    """
+
+def d_annotates():
+    """
+    An annotated assignment at the top level of a doctest records the annotation in __annotations__ of ITS namespace
+
+    >>> note: str = 'a'
+    >>> print(note, sorted(__annotations__))
+    a ['GLOBAL_ANNOTATED', 'note']
+    """
+
+def d_reads_annotations():
+    """
+    >>> print(sorted(__annotations__))
+    ['GLOBAL_ANNOTATED']
     """
 
 def d_closes_stdout():
@@ -225,7 +241,7 @@ def d_requires_toplevel_present():
 # verdicts known by construction (whatever ran before, whatever the default options): the first observation in the
 # process is not trusted for these, it may itself be polluted by process-wide state
 EXPECT_VERDICT = {'d_async_leaves_task': 'passed', 'd_async_reader': 'passed', 'd_echo_loop': 'passed', 'd_read_underscore': 'failed', 'd_lazy_skip': 'skipped', 'd_lazy_requires': 'passed', 'd_requires_dotted_missing': 'skipped', 'd_requires_dotted_present': 'passed', 'd_requires_toplevel_present': 'passed',
-                  'd_requires_two': 'skipped', 'd_define': 'passed', 'd_uses_global': 'passed', 'd_read': 'failed', 'd_read_leftover': 'failed'}
+                  'd_requires_two': 'skipped', 'd_define': 'passed', 'd_annotates': 'passed', 'd_reads_annotations': 'passed', 'd_uses_global': 'passed', 'd_read': 'failed', 'd_read_leftover': 'failed'}
 
 
 def observe(ex, default_state):
@@ -313,7 +329,7 @@ def history_search(ctx):
                     sys.path[:] = path_pristine
                 mod = sys.modules.get('xdverif_c11_mod')
                 if mod is not None:
-                    snap = (mod.GLOBAL_X, mod.helper(), sorted(k for k in vars(mod) if not k.startswith('__')))
+                    snap = (mod.GLOBAL_X, mod.helper(), sorted(k for k in vars(mod) if not k.startswith('__')), sorted(getattr(mod, '__annotations__', {})))
                     if mod_snapshot is None:
                         mod_snapshot = snap
                     elif snap != mod_snapshot:
